@@ -688,7 +688,14 @@ class Factory:
             return None
         if name == "df":
             from evo.tools import pandas_bridge
-            return pandas_bridge.trajectory_to_df(self.traj(True))
+            df = pandas_bridge.trajectory_to_df(self.traj(True))
+            how = r.random()
+            if how < 0.35:
+                return df.iloc[::-1]              # descending index (rows reversed): a legal frame, must come back unchanged
+            if how < 0.6 and len(df) > 2:
+                import pandas as pd
+                return pd.concat([df.iloc[len(df) // 2:], df.iloc[:len(df) // 2]])     # two segments concatenated out of order
+            return df
         if name == "confirm_overwrite":
             return False
         if fname.startswith("evo.tools.plot."):
@@ -898,6 +905,10 @@ def frame_case(ctx, qual, cls, fn, variant, tmp):
                                           for _ in range(c.num_poses)]), orientations_quat_wxyz=np.array(c.orientations_quat_wxyz))
         if qual.endswith(".transform"):
             args["t"] = fac.se3()
+            if variant % 3 == 1:
+                args["t"][:3, :3] *= 2.0          # a Sim(3) matrix (scale 2): the caller's matrix must come back unchanged
+            elif variant % 3 == 2:
+                args["t"] = np.asfortranarray(args["t"])
         if qual.startswith("evo.tools.plot."):
             from evo.tools import plot
             import matplotlib.pyplot as plt
